@@ -38,6 +38,9 @@ using L_V11 = List<D<P, sz, 8>, D<V, Str>, D<P, Str>>;
 using L_P5 = List<D<P, Cpy>, D<P, u8>>;
 using L_F6 = List<D<F, Cpy>, D<P, u32>>;
 using L_V10 = List<D<P, sz, 8>, D<V, Cpy>, D<P, Cpy>>;
+// no parameter is trivially copy constructible, one of them is trivially MOVE constructible
+using L_P12 = List<D<P, Cpy>, D<P, Trk>>;
+using L_F11 = List<D<F, Cpy>, D<P, Cpy>>;
 // trivially constructible but not trivially copyable (user-provided assignment), alone and next to non-trivial types
 using L_P8 = List<D<P, Asg>, D<P, Trk>>;
 using L_P9 = List<D<P, Asg>, D<P, u8>>;
